@@ -50,13 +50,14 @@ def obs(o):
 
 
 def gen_obs(o):
-    return " %s %s %s %s %s)" % (
+    return " %s %s %s %s %s %s)" % (
         clist(o.get("gkeys", [])),
         clist(o.get("gens", []), lambda g: "(%d, %s)" % (g["h"], "None" if g["err"] else "(Some %s)" % clist(g["addrs"]))),
         clist(o.get("at", []), lambda a: "(%d,%d)" % tuple(a)),
         clist((o.get("params") or []), lambda p: "(%d, %s)" % (p["h"], "None" if p["err"] else "(Some (%d, %d, %d, %s))" % (
             p["pv"], p["pc"], p["cert"], clist(p["vals"], lambda v: "(%d,%d)" % tuple(v))))),
-        cbool(o.get("vhash", True)))
+        cbool(o.get("vhash", True)),
+        clist(o.get("nexts") or [], lambda x: "(%d, %s)" % (x[0], "None" if x[1] < 0 else "(Some %d)" % x[1])))
 
 
 def gens_of(chg):
@@ -209,6 +210,11 @@ def run(ck):
                 f["spec_violated"] = True
                 ck.failures.append(f)
         ck.extra["chain_switch_universes"] = nsw
+        ck.obligations += 1
+        if nsw >= 10:
+            ck.discharged += 1
+        else:
+            ck.fail_obligation("generator:chain-switch", "only %d chain-switch universes were run (the revert path of the module)" % nsw)
     for r in recs[:2]:
         ck.sample({k: r[k] for k in ("batch", "gh", "init", "blocks")})
     nb = sum(len(c["blocks"]) for c in recs)
